@@ -93,17 +93,68 @@ def check(ck):
         got = repo.resolve_name(f.module, "GraphQLObjectType")
         ck.ob("the object-type test names the schema's object type class", got == "tartiflette.types.object.GraphQLObjectType", f, f.node,
               construct="runtime:class", detail=str(got))
-        # is_possible_type implementations
-        for rel, cls in (("tartiflette/types/interface.py", "GraphQLInterfaceType"), ("tartiflette/types/union.py", "GraphQLUnionType")):
-            m = repo.func(rel, f"{cls}.is_possible_type")
-            r = FuncView(m).returns()
-            a = m.positional_params[1]
-            ck.ob(f"{cls}.is_possible_type is a membership test on the possible-type set",
-                  bool(r) and all(unparse(x.value) in (f"{a}.name in self._possible_types_set", f"{a} in self._possible_types_set") for x in r)
-                  and any(unparse(x.value) == f"{a}.name in self._possible_types_set" for x in r), m, m.node,
-                  construct=f"possible:{cls}")
+        possible_type_sets(ck, repo)
     with ck.rule("R6"):
         _never_raises(ck, repo)
+    # "exactly the selected response keys": field collection keeps every node of every selected key once (C01.R1-R5)
+    # and the result mapping is built from the collected keys (C01.R6), whatever the resolvers return
+    with ck.pinned("R7"):
+        from . import c01
+        c01.collection_rules(ck, repo)
+        c01._execute_fields_alignment(ck, repo)
+
+
+def possible_type_sets(ck, repo):
+    """The possible-type set an abstract type answers `is_possible_type` / `possible_types_set` from is filled at bake
+    time from the *final* member list (after `extend union` / `extend type ... implements`), together with the
+    introspection list (shared with C01, C06, C07)."""
+    for rel, cls in (("tartiflette/types/interface.py", "GraphQLInterfaceType"), ("tartiflette/types/union.py", "GraphQLUnionType")):
+        m = repo.func(rel, f"{cls}.is_possible_type")
+        r = FuncView(m).returns()
+        a = m.positional_params[1]
+        ck.ob(f"{cls}.is_possible_type is a membership test on the possible-type set",
+              bool(r) and all(unparse(x.value) in (f"{a}.name in self._possible_types_set", f"{a} in self._possible_types_set") for x in r)
+              and any(unparse(x.value) == f"{a}.name in self._possible_types_set" for x in r), m, m.node,
+              construct=f"possible:{cls}")
+        c = repo.cls(rel, cls)
+        sa = c.self_attrs()
+        ck.ob(f"{cls}.__init__ starts with an empty possible-type set and list of its own (members are added at bake time, after extensions)",
+              unparse(sa.get("_possible_types_set")) in ("set()",) and unparse(sa.get("_possible_types")) in ("[]", "list()"), c.methods["__init__"], c.methods["__init__"].node,
+              construct=f"possible:{cls}:init", detail=f"{unparse(sa.get('_possible_types_set'))} / {unparse(sa.get('_possible_types'))}")
+        pr = repo.func(rel, f"{cls}.possible_types_set")
+        r = FuncView(pr).returns()
+        ck.ob(f"{cls}.possible_types_set is that same set", len(r) == 1 and unparse(r[0].value) == "self._possible_types_set" and "property" in pr.decorators, pr, pr.node,
+              construct=f"possible:{cls}:property")
+    u = repo.func("tartiflette/types/union.py", "GraphQLUnionType.bake")
+    uv = FuncView(u)
+    lps = [l for l in uv.loops() if isinstance(l, ast.For) and unparse(l.iter) == "self.types"]
+    ok = False
+    if len(lps) == 1:
+        x = unparse(lps[0].target)
+        adds = [c for c in uv.calls("add") if contains(lps[0], c) and unparse(c.func.value) == "self._possible_types_set"]
+        apps = [c for c in uv.calls("append") if contains(lps[0], c) and unparse(c.func.value) == "self._possible_types"]
+        ok = len(adds) == 1 and len(apps) == 1 and unparse(adds[0].args[0]) == x and not uv.conditions(adds[0]) and not uv.conditions(apps[0]) and \
+            not any(isinstance(n, (ast.Break, ast.Continue, ast.Return)) for n in walk_no_nested(lps[0]))
+    ck.ob("GraphQLUnionType.bake adds every member of the final `self.types` to the set and to the list", ok, u, lps[0] if lps else u.node, construct="possible:union:bake")
+    ap = repo.func("tartiflette/types/interface.py", "GraphQLInterfaceType.add_possible_type")
+    av = FuncView(ap)
+    a = ap.positional_params[1]
+    adds = [c for c in av.calls("add") if unparse(c.func.value) == "self._possible_types_set"]
+    apps = [c for c in av.calls("append") if unparse(c.func.value) == "self._possible_types"]
+    ok = len(adds) == 1 and len(apps) == 1 and unparse(adds[0].args[0]) == f"{a}.name" and unparse(apps[0].args[0]) == a and not av.conditions(adds[0]) and not av.conditions(apps[0])
+    ck.ob("GraphQLInterfaceType.add_possible_type records the implementing type in the set (by name) and in the list", ok, ap, ap.node, construct="possible:interface:add")
+    o = repo.func("tartiflette/types/object.py", "GraphQLObjectType.bake")
+    ov = FuncView(o)
+    cs = ov.calls("add_possible_type")
+    lps = [l for l in ov.loops() if isinstance(l, ast.For) and unparse(l.iter) == "self.interfaces_names"]
+    ok = len(cs) == 1 and len(lps) == 1 and contains(lps[0], cs[0]) and [unparse(x) for x in cs[0].args] == ["self"] and set(ov.conditions(cs[0])) <= {("self.interfaces_names", "T")}
+    if ok:
+        src = [n for n in walk_no_nested(lps[0]) if isinstance(n, ast.Assign) and unparse(n.targets[0]) == unparse(cs[0].func.value)]
+        ok = len(src) == 1 and unparse(src[0].value) == f"schema.find_type({unparse(lps[0].target)})"
+    ck.ob("GraphQLObjectType.bake registers the object with every interface it (finally) implements", ok, o, cs[0] if cs else o.node, construct="possible:object:register")
+    oc = repo.cls("tartiflette/types/object.py", "GraphQLObjectType")
+    ck.ob("an object type's possible-type set is itself", unparse(oc.self_attrs().get("_possible_types_set")) == "{self.name}", oc.methods["__init__"], oc.methods["__init__"].node,
+          construct="possible:object:self")
 
 
 def list_guard(ck, repo):
